@@ -102,6 +102,8 @@ def new_value(rng, obj, attr, cur, keep=False):
         new = torch.where(torch.isfinite(base), new, base)
         if "survival" in attr or "probabilit" in attr:
             new = new.clamp(0.0, 1.0)
+        if attr == "particles" and new.shape[-1] == 7:
+            new[..., 6] = base[..., 6]             # the homogeneous coordinate stays 1
         return new
     if isinstance(cur, bool):
         return not cur
@@ -576,7 +578,8 @@ def examine(spec, rng, cheetah, light=False):
         c = a.clone()
     except Exception as ex:
         msg = f"{type(ex).__name__}: {ex}"
-        if "grid_shape" in msg and isinstance(ex, TypeError) and has_sck:
+        listed = {f.get("signature", {}).get("tag") for f in common.load_known_findings(PID) if f.get("status") == "known"}
+        if "grid_shape" in msg and isinstance(ex, TypeError) and has_sck and "F12-SpaceChargeKick" in listed:
             return ["F12-SpaceChargeKick"], [], None
         return [], [f"clone() raised {msg[:200]}"], None
     if c is a:
@@ -584,7 +587,10 @@ def examine(spec, rng, cheetah, light=False):
     # ---- equal observable state (values, dtype, device), no object of the original inside the clone
     oa, oc = observe(a), observe(c)
     diffs = obs_diffs(oa, oc)
-    f12 = [d for d in diffs if (d["cls"], d["attr"]) in F12_ATTRS]
+    # a difference is attributed to a listed finding only while that finding is listed with status "known" (F12 is fixed in /repo:
+    # the same difference is now an ordinary violation with this input)
+    listed = {f.get("signature", {}).get("tag") for f in common.load_known_findings(PID) if f.get("status") == "known"}
+    f12 = [d for d in diffs if (d["cls"], d["attr"]) in F12_ATTRS and "F12-" + d["cls"] in listed]
     f80 = [d for d in diffs if d not in f12 and is_f80(d, oa)]
     other = [d for d in diffs if d not in f12 and d not in f80]
     for d in f12:
@@ -654,7 +660,7 @@ def shrink(spec, rng_seed, cheetah, light):
             return False
     best = spec
     ops = list(spec.get("history", []))
-    if len(ops) > 12 or not fails(best):
+    if len(ops) > 45 or not fails(best):
         return best
     i = 0
     while i < len(ops):
@@ -910,8 +916,8 @@ def main(tier, replay=None):
     rows = {r["cname"]: r for r in rows_l}
 
     surface_log = {}
-    terms, cases, problems = element_cases(run, rows_l, cheetah, 12 if thorough else 3, surface_log)
-    seg_problems = segment_cases(run, cheetah, 600 if thorough else 40, surface_log)
+    terms, cases, problems = element_cases(run, rows_l, cheetah, 12 if thorough else 5, surface_log)
+    seg_problems = segment_cases(run, cheetah, 600 if thorough else 80, surface_log)
     beam_problems = beam_cases(run, cheetah, 40 if thorough else 6, surface_log)
     run.cov["assigned_surface"] = {k: sorted(v) for k, v in sorted(surface_log.items())}
     run.cov["undeclared_slots_not_assigned"] = {k: sorted(v) for k, v in sorted(SKIPPED.items())}
